@@ -26,7 +26,7 @@ var (
 	flagsV  = []uint16{0, 0x8000, 0xffff, 0x0001}
 	htypes  = []uint8{1, 6}
 	hlens   = []int{6, 0, 16}
-	// option codes with five states each: 0 absent, 1 empty, 2 one byte, 3 typical, 4 255 bytes
+	// option codes with six states each: 0 absent, 1 empty, 2 one byte, 3 typical, 4 255 bytes, 5 300 bytes
 	optCodes = [5]uint8{82, 61, 54, 55, 50}
 )
 
@@ -42,10 +42,11 @@ const (
 	stOne
 	stTypical
 	stMax
+	stLong // longer than one instance can carry: travels as two instances (RFC 3396)
 	nStates
 )
 
-var stateName = [nStates]string{"absent", "empty", "1 byte", "typical", "255 bytes"}
+var stateName = [nStates]string{"absent", "empty", "1 byte", "typical", "255 bytes", "300 bytes"}
 
 // spec is one input packet of the enumerated product.
 type spec struct {
@@ -99,8 +100,8 @@ func optValue(code uint8, st int) []byte {
 		case 50:
 			return []byte{10, 0, 0, 77}
 		}
-	case stMax:
-		b := make([]byte, 255)
+	case stMax, stLong:
+		b := make([]byte, map[int]int{stMax: 255, stLong: 300}[st])
 		for i := range b {
 			b[i] = byte(i*7) + code
 		}
@@ -509,6 +510,7 @@ func Alphabet() []ref.Mod {
 		{Kind: ref.MServerIP, IP: [4]byte{10, 55, 0, 1}},
 		{Kind: ref.MGeneric, Code: 82, Val: []byte{1, 2, 'x', 'y'}}, // collides with the echoed option 82
 		{Kind: ref.MTransactionID, Xid: [4]byte{}},                  // the all-zero id is an id like any other and must prevail
+		{Kind: ref.MRelay, IP: [4]byte{10, 44, 0, 1}},               // collides with a giaddr that is already set (copied from the request, or set by an earlier modifier)
 	}
 }
 
@@ -558,6 +560,8 @@ func libMod(m ref.Mod) dhcpv4.Modifier {
 		return dhcpv4.WithRequestedOptions(cs...)
 	case ref.MGeneric:
 		return dhcpv4.WithGeneric(code(m.Code), append([]byte(nil), m.Val...))
+	case ref.MRelay:
+		return dhcpv4.WithRelay(lip16(m.IP))
 	}
 	panic("unknown modifier kind")
 }
@@ -715,6 +719,8 @@ func goMod(m ref.Mod) string {
 		return "dhcpv4.WithRequestedOptions(" + strings.Join(s, ", ") + ")"
 	case ref.MGeneric:
 		return fmt.Sprintf("dhcpv4.WithGeneric(dhcpv4.GenericOptionCode(%d), %s)", m.Code, goBytes(m.Val))
+	case ref.MRelay:
+		return "dhcpv4.WithRelay(" + goIP(lip16(m.IP)) + ")"
 	}
 	return "nil"
 }
